@@ -576,7 +576,9 @@ class DestHandler:
                 # not requested any more. Cancel Response Procedures, chapter 4.6.6.
                 self._params.acked_params.deferred_lost_segment_detection_active = False
                 self._handle_eof_pdu(pdu_holder.to_eof_pdu())
-            self._deferred_lost_segment_handling()
+            if self.states.step == TransactionStep.WAITING_FOR_MISSING_DATA:
+                # Not if a fault declared for the File Data PDU cancelled or abandoned the transaction
+                self._deferred_lost_segment_handling()
         if self.states.step == TransactionStep.TRANSFER_COMPLETION:
             self._handle_transfer_completion()
         if self.states.step == TransactionStep.SENDING_FINISHED_PDU:
